@@ -9,15 +9,31 @@
 //! `c11_sub_pub <v> <S> <i> <j>` -> `<view> <spend>`: `subaddress::get_public_keys` (cross-checked with `get_spend_public_key`);
 //! `c11_sub_sec <v> <s> <i> <j>` -> `<view sec> <spend sec>`: `get_secret_keys` (cross-checked with the two single-key functions);
 //! `c11_sub_addr <v> <S> <i> <j> <Mainnet|Testnet|Stagenet|None>` -> hex of the UTF-8 text of `get_subaddress(..)`.
-//! Non-trivial rule: c10_derive* — the point has a non-identity small-order component and the scalar is not 0 (the inputs on
-//! which `(8a mod l)·B` and `8·(a·B)` differ); c10_onetime* — position >= 128 or a point with torsion; c09 — index != (0,0) or
+//! Added after the audit (G06):
+//! `c09_recover_seq <v> <s> <R> <n1> <i1> <j1> <n2> <i2> <j2> …` -> scalars: ONE `KeyRecoverer::new(..)`, all `recover` calls in order on
+//!   that object; each result also goes through `PublicKey::from_private_key` and must equal dalek's `x*G` (else `MISMATCH`);
+//! `c10_check <v> <S> <R> <n> <key>` -> `true|false`: `KeyGenerator::from_key(&ViewPair{v, S}, R).check(n, key)`;
+//! `c10_rvn <v> <R> <n>` -> scalar: `KeyGenerator::from_key(&ViewPair{v, ..}, R).get_rvn_scalar(n)`;
+//! `c10_derive_raw <a> <32 bytes>` -> point: `from_key` on `PublicKey { point: CompressedEdwardsY(bytes) }` built through the PUBLIC
+//!   field (no `from_slice` validation; panics inside `point()` if the bytes do not decompress) — no Lean side;
+//! `c10_subcheck <v> <S> <majLo> <majHi> <minLo> <minHi> <R> <n> <key>` -> `none` | `<i>/<j>`: `SubKeyChecker::new(&ViewPair{v, S}, ..).check(n, &key, &R)`;
+//! `c09_scan_tx <v> <s> <majLo> <majHi> <minLo> <minHi> <tx>` -> `err <kind>` | `ok <k> <index>:<i>/<j>:<x>…`: `Transaction::check_outputs`
+//!   for the wallet (v, s·G), then `OwnedTxOut::recover_key(&KeyPair{v, s})` on every reported output;
+//! `c11_scalar <v> <i> <j>` -> scalar: `subaddress::get_secret_scalar(&v, Index{i, j})`;
+//! `c11_sub_keys <v> <s> <i> <j>` -> `<view> <spend> <view'> <spend'>`: `get_secret_keys` then the two single-key functions.
+//! Non-trivial rule: c10_derive* — the point has a non-identity small-order component and the scalar is not 0 (a superset of the
+//! inputs on which `(8a mod l)·B` and `8·(a·B)` differ: they differ iff floor(8a/l)·l·T != 0; the exact count is the statistic
+//! `c10.formulas-differ`); c10_onetime* — position >= 128 or a point with torsion; c09 — index != (0,0) or
 //! position >= 128; c11 — index != (0,0).
 use crate::common::*;
 use curve25519_dalek::constants::{ED25519_BASEPOINT_POINT as G, EIGHT_TORSION};
-use curve25519_dalek::edwards::EdwardsPoint;
+use curve25519_dalek::edwards::{CompressedEdwardsY, EdwardsPoint};
 use curve25519_dalek::scalar::Scalar;
 use curve25519_dalek::traits::Identity;
-use monero::cryptonote::onetime_key::{KeyGenerator, KeyRecoverer};
+use monero::blockdata::transaction::{RawExtraField, TxOutTarget};
+use monero::consensus::encode::{deserialize, serialize, VarInt};
+use monero::cryptonote::onetime_key::{KeyGenerator, KeyRecoverer, SubKeyChecker};
+use monero::{Transaction, TransactionPrefix, TxIn, TxOut};
 use monero::cryptonote::subaddress::{self, Index};
 use monero::network::Network;
 use monero::util::key::{KeyPair, PrivateKey, PublicKey, ViewPair};
@@ -93,6 +109,76 @@ pub fn exec(t: &[&str]) -> Option<String> {
             }
             _ => e(),
         },
+        ["c09_recover_seq", v, s, r, rest @ ..] if !rest.is_empty() && rest.len() % 3 == 0 => match (sk(v), sk(s), pk(r)) {
+            (Some(v), Some(s), Some(r)) => {
+                let kp = KeyPair { view: v, spend: s };
+                let rec = KeyRecoverer::new(&kp, r);
+                let mut out = vec![];
+                for q in rest.chunks(3) {
+                    let (n, ix) = match (pos(q[0]), idx(q[1], q[2])) { (Some(n), Some(ix)) => (n, ix), _ => return Some(e()) };
+                    let x = rec.recover(n, ix);
+                    if PublicKey::from_private_key(&x).to_bytes() != (x.scalar * G).compress().to_bytes() {
+                        return Some(format!("MISMATCH from_private_key({}) != x*G", hex(&x.to_bytes())));
+                    }
+                    out.push(hex(&x.to_bytes()));
+                }
+                out.join(" ")
+            }
+            _ => e(),
+        },
+        ["c10_check", v, s, r, n, key] => match (sk(v), pk(s), pk(r), pos(n), pk(key)) {
+            (Some(v), Some(s), Some(r), Some(n), Some(key)) => KeyGenerator::from_key(&ViewPair { view: v, spend: s }, r).check(n, key).to_string(),
+            _ => e(),
+        },
+        ["c10_subcheck", v, s, a, b, c, d, r, n, key] => match (sk(v), pk(s), idx(a, b), idx(c, d), pk(r), pos(n), pk(key)) {
+            (Some(v), Some(s), Some(maj), Some(min), Some(r), Some(n), Some(key)) => {
+                let vp = ViewPair { view: v, spend: s };
+                let ck = SubKeyChecker::new(&vp, maj.major..maj.minor, min.major..min.minor);
+                match ck.check(n, &key, &r) { None => "none".into(), Some(ix) => format!("{}/{}", ix.major, ix.minor) }
+            }
+            _ => e(),
+        },
+        ["c09_scan_tx", v, s, a, b, c, d, h] => match (sk(v), sk(s), idx(a, b), idx(c, d), hex::decode(h).ok().and_then(|w| deserialize::<Transaction>(&w).ok())) {
+            (Some(v), Some(s), Some(maj), Some(min), Some(tx)) => {
+                let kp = KeyPair { view: v, spend: s };
+                let vp = ViewPair { view: v, spend: PublicKey::from_private_key(&s) };
+                match tx.check_outputs(&vp, maj.major..maj.minor, min.major..min.minor) {
+                    Err(err) => format!("err {}", match err { monero::blockdata::transaction::Error::NoTxPublicKey => "NoTxPublicKey", monero::blockdata::transaction::Error::MissingEcdhInfo => "MissingEcdhInfo",
+                        monero::blockdata::transaction::Error::MissingCommitment => "MissingCommitment", monero::blockdata::transaction::Error::InvalidCommitment => "InvalidCommitment", _ => "Other" }),
+                    Ok(ws) => {
+                        let mut out = format!("ok {}", ws.len());
+                        for w in &ws { out += &format!(" {}:{}/{}:{}", w.index(), w.sub_index().major, w.sub_index().minor, hex(&w.recover_key(&kp).to_bytes())); }
+                        out
+                    }
+                }
+            }
+            _ => e(),
+        },
+        ["c10_rvn", v, r, n] => match (sk(v), pk(r), pos(n)) {
+            (Some(v), Some(r), Some(n)) => hex(&KeyGenerator::from_key(&ViewPair { view: v, spend: r }, r).get_rvn_scalar(n).to_bytes()),
+            _ => e(),
+        },
+        ["c10_derive_raw", a, b] => match (sk(a), hex::decode(b).ok().filter(|w| w.len() == 32 && b.len() == 64)) {
+            (Some(a), Some(w)) => {
+                let mut arr = [0u8; 32]; arr.copy_from_slice(&w);
+                let key = PublicKey { point: CompressedEdwardsY(arr) };
+                hex(&KeyGenerator::from_key(&ViewPair { view: a, spend: key }, key).rv.to_bytes())
+            }
+            _ => e(),
+        },
+        ["c11_scalar", v, i, j] => match (sk(v), idx(i, j)) {
+            (Some(v), Some(ix)) => hex(&subaddress::get_secret_scalar(&v, ix).to_bytes()),
+            _ => e(),
+        },
+        ["c11_sub_keys", v, s, i, j] => match (sk(v), sk(s), idx(i, j)) {
+            (Some(v), Some(s), Some(ix)) => {
+                let kp = KeyPair { view: v, spend: s };
+                let k = subaddress::get_secret_keys(&kp, ix);
+                format!("{} {} {} {}", hex(&k.view.to_bytes()), hex(&k.spend.to_bytes()),
+                    hex(&subaddress::get_view_secret_key(&kp, ix).to_bytes()), hex(&subaddress::get_spend_secret_key(&kp, ix).to_bytes()))
+            }
+            _ => e(),
+        },
         _ => return None,
     })
 }
@@ -126,6 +212,18 @@ fn address_text(tag: u8, spend: &EdwardsPoint, view: &EdwardsPoint) -> String {
     base58_monero::encode(&b).unwrap()
 }
 
+/// a version-1 transaction (one `Gen` input, clear amounts, no signatures) with the given output keys and extra bytes, serialized
+fn tx_v1(keys: &[[u8; 32]], extra: Vec<u8>) -> Vec<u8> { serialize(&prefix_of(1, keys, extra)) }
+fn prefix_of(ver: u64, keys: &[[u8; 32]], extra: Vec<u8>) -> TransactionPrefix {
+    let outputs = keys.iter().enumerate().map(|(i, k)| TxOut { amount: VarInt(if ver == 1 { 1000 + i as u64 } else { 0 }), target: TxOutTarget::ToKey { key: *k } }).collect();
+    TransactionPrefix { version: VarInt(ver), unlock_time: VarInt(0), inputs: vec![TxIn::Gen { height: VarInt(1) }], outputs, extra: RawExtraField(extra) }
+}
+/// extra field: transaction public key, then (optionally) the additional public keys
+fn extra_of(main: &EdwardsPoint, adds: &[EdwardsPoint]) -> Vec<u8> {
+    let mut e = vec![1u8]; e.extend(main.compress().to_bytes());
+    if !adds.is_empty() { e.push(4); e.extend(varint(adds.len() as u64)); for a in adds { e.extend(a.compress().to_bytes()); } }
+    e
+}
 fn l_minus_1() -> Scalar { -Scalar::ONE }
 fn ph(p: &EdwardsPoint) -> String { hex(&p.compress().to_bytes()) }
 fn sh(s: &Scalar) -> String { hex(s.as_bytes()) }
@@ -138,8 +236,20 @@ fn strat_scalar(rng: &mut Rng, k: u64) -> (Scalar, &'static str) {
         2 => (l_minus_1(), "l-1"),
         3 => (Scalar::from(rng.range(2, 1000)), "small"),
         4 => (l_minus_1() - Scalar::from(rng.range(1, 1000)), "near-l"),
+        // where floor(8a/l) steps: ceil(j*l/8) and the scalar just below it, j = 1..7
+        5 => (eighth_boundary(rng.range(1, 7)), "ceil(j*l/8)"),
+        6 => (eighth_boundary(rng.range(1, 7)) - Scalar::ONE, "ceil(j*l/8)-1"),
         _ => (rand_scalar(rng), "random"),
     }
+}
+/// ceil(j*l/8) for j in 1..=7: l = 8q + 5, so j*l/8 = j*q + 5j/8 and the ceiling is j*q + ceil(5j/8)
+fn eighth_boundary(j: u64) -> Scalar {
+    // q = (l - 5) / 8 from the little-endian bytes of l
+    let mut l = unhex("edd3f55c1a631258d69cf7a2def9de1400000000000000000000000000000010");
+    l[0] -= 5; // 0xed - 5, no borrow
+    let mut q = [0u8; 32];
+    for i in 0..32 { q[i] = (l[i] >> 3) | if i + 1 < 32 { l[i + 1] << 5 } else { 0 }; }
+    Scalar::from_bytes_mod_order(q) * Scalar::from(j) + Scalar::from((5 * j + 7) / 8)
 }
 fn from_hex_scalar(h: &str) -> Option<Scalar> { let b = unhex(h); if b.len() != 32 { return None; } let mut a = [0u8; 32]; a.copy_from_slice(&b); Option::from(Scalar::from_canonical_bytes(a)) }
 
@@ -242,8 +352,149 @@ pub fn run_c10(o: &mut Out, tier: &str, seed: u64) {
             o.direct(got == ph(&want), "c10: receiver key on a transaction key with torsion == Hs(8vR ‖ n)G + S [dalek]", format!("v={} R={} n={}", sh(&v), ph(&rt), n), got, ph(&want));
             o.op(format!("c10_onetime {} {} {} {}", sh(&r), ph(&(vv + t)), ph(&(s_pub + t)), n), true);
         }
+        // ---- added after the audit (G06) ----
+        // (a) how many of the "nontrivial" derive cases really separate the two formulas: (8a mod l)*B != 8*(a*B)
+        for t in EIGHT_TORSION.iter().skip(1) {
+            let b = bp + t;
+            if (a * Scalar::from(8u8)) * b != derivation(&a, &b) { o.stat("c10.formulas-differ"); } else { o.stat("c10.formulas-agree-despite-torsion"); }
+        }
+        // (b) torsion drawn INDEPENDENTLY of the scalar stratum (above `t` is tied to k%8, and in the k%4 branch only T0/T4 occur):
+        // a small-order point of every order on the destination view key through the SENDER constructor and the Lean model/spec
+        let ti = rng.range(1, 7) as usize;
+        let tq = EIGHT_TORSION[ti];
+        o.stat(&format!("c10.sender-torsion.{}", ti));
+        let vt = bp + tq;
+        let got = o.op(format!("c10_derive_sender {} {}", sh(&a), ph(&vt)), a != Scalar::ZERO);
+        o.direct(got == ph(&torsion_free), "c10: from_random(V'+T,_,r).rv == 8r*V' (torsion on the sender side has no influence)", format!("{} {} T{}", sh(&a), ph(&bp), ti), got, ph(&torsion_free));
+        // (c) receiver with a spend key that is NEITHER the transaction key NOR the view key, torsion of any order on R and on S,
+        // independent of each other; `get_rvn_scalar` observed directly; `check` on the right key and on wrong ones
+        let (t_r, t_s) = (EIGHT_TORSION[rng.below(8) as usize], EIGHT_TORSION[rng.below(8) as usize]);
+        let (rt, st) = (rr + t_r, s_pub + t_s);
+        let d = derivation(&v, &rt);
+        let mut m = d.compress().to_bytes().to_vec(); m.extend(varint(n));
+        let got = o.op(format!("c10_rvn {} {} {}", sh(&v), ph(&rt), n), true);
+        o.direct(got == sh(&hs(&m)), "c10: get_rvn_scalar(n) == Hs(enc(8vR) ‖ varint(n)) [dalek]", format!("v={} R={} n={}", sh(&v), ph(&rt), n), got, sh(&hs(&m)));
+        let key = derive_public_key(&d, n, &st);
+        let got = o.op(format!("c10_onetime_recv {} {} {} {}", sh(&v), ph(&st), ph(&rt), n), true);
+        o.direct(got == ph(&key), "c10: receiver key, independent spend key, independent torsion on R and S == Hs(8vR ‖ n)G + S [dalek]", format!("v={} S={} R={} n={}", sh(&v), ph(&st), ph(&rt), n), got, ph(&key));
+        let got = o.op(format!("c10_check {} {} {} {} {}", sh(&v), ph(&st), ph(&rt), n, ph(&key)), true);
+        o.direct(got == "true", "c10: check(n, key) accepts the key Hs(8vR ‖ n)G + S [dalek]", format!("v={} S={} R={} n={}", sh(&v), ph(&st), ph(&rt), n), got, "true".into());
+        // one wrong key per case, rotating: neighbouring position, key moved by a small-order point, key for another spend key,
+        // key for the torsion-free R computed with the pinned formula's scalar (differs only when the formulas differ), negated key
+        let (wrong, what) = match k % 5 {
+            0 => (derive_public_key(&d, n.wrapping_add(1), &st), "position n+1"),
+            1 => (key + EIGHT_TORSION[rng.range(1, 7) as usize], "key + small-order point"),
+            2 => (derive_public_key(&d, n, &(st + G)), "another spend key"),
+            3 => (derive_public_key(&d, n.wrapping_sub(1), &st), "position n-1"),
+            _ => (-key, "negated key"),
+        };
+        o.stat(&format!("c10.check.wrong:{}", what));
+        let got = o.op(format!("c10_check {} {} {} {} {}", sh(&v), ph(&st), ph(&rt), n, ph(&wrong)), true);
+        let want = (wrong.compress() == key.compress()).to_string();
+        o.direct(got == want, "c10: check(n, key) is true only for the generator's own one_time_key(n)", format!("v={} S={} R={} n={} wrong={}", sh(&v), ph(&st), ph(&rt), n, what), got, want);
     }
+    c10_families(o, &mut rng, tier == "thorough");
     malformed(o, &mut rng);
+    // wire forms that are not exactly one 32-byte key: short, long (trailing byte), also for a key with torsion
+    let a = sh(&rand_scalar(&mut rng));
+    let bt = ph(&(rand_scalar(&mut rng) * G + EIGHT_TORSION[1]));
+    for w in [bt[..62].to_string(), format!("{}00", bt), format!("{}{}", bt, bt), "-".to_string()] {
+        o.stat("c10.wire.bad-length");
+        let got = o.op(format!("c10_derive_wire {} {}", a, w), false);
+        o.direct(got == "err", "c10: a consensus-form key of the wrong length is rejected", w, got, "err".into());
+    }
+    // `PublicKey` built through its public field (no validation): when the bytes decompress the derivation is still 8a*B
+    // (also for a non-canonical encoding); when they do not, `point()` panics — recorded, not judged
+    let asc = rand_scalar(&mut rng);
+    for w in ["edffffffffffffffffffffffffffffffffffffffffffffffffffffffffffff7f".to_string(), "0100000000000000000000000000000000000000000000000000000000000080".to_string(),
+              "0200000000000000000000000000000000000000000000000000000000000000".to_string(), bt.clone()] {
+        let got = o.op(format!("c10_derive_raw {} {}", sh(&asc), w), false);
+        let mut arr = [0u8; 32]; arr.copy_from_slice(&unhex(&w));
+        match CompressedEdwardsY(arr).decompress() {
+            Some(b) => { o.stat("c10.raw-field-key.decompresses"); o.direct(got == ph(&derivation(&asc, &b)), "c10: derivation from an unvalidated PublicKey whose bytes decompress == 8a*B [dalek]", w, got, ph(&derivation(&asc, &b))); }
+            None => { o.stat(if got.starts_with("PANIC") { "c10.raw-field-key.panics" } else { "c10.raw-field-key.no-panic" }); }
+        }
+    }
+}
+
+/// Families added after the audit / on request of the coordinator (G06); every op is compared with the Lean model and spec by
+/// check.py and with the dalek re-implementation here.
+fn c10_families(o: &mut Out, rng: &mut Rng, thorough: bool) {
+    // (1) two wallets that SHARE the spend key and differ in the view key, used one after the other (same thread) with the SAME
+    // transaction key: from_key (one-time key, rvn scalar), from_random, SubKeyChecker::check, and the derivation with spend == R.
+    // What a memo keyed on (S, R) without the view key would confuse.
+    for k in 0..(if thorough { 60u64 } else { 10 }) {
+        let (v1, v2) = (rand_scalar(rng), rand_scalar(rng));
+        let s_pub = rand_scalar(rng) * G + EIGHT_TORSION[if k % 3 == 0 { rng.below(8) as usize } else { 0 }];
+        let r = rand_scalar(rng);
+        let rt = r * G + EIGHT_TORSION[(k % 8) as usize];
+        let n = *rng.pick(&POSITIONS);
+        let (si, sj) = (rng.below(2) as u32, 1 + rng.below(2) as u32);
+        // an output addressed to subaddress (si, sj) of wallet 1 through the key rt
+        let key1 = derive_public_key(&derivation(&v1, &rt), n, &dest_at(&v1, &s_pub, si, sj).1);
+        for (w, v) in [(1, v1), (2, v2), (1, v1)] {
+            o.stat("c10.shared-spend-key");
+            let d = derivation(&v, &rt);
+            let want = derive_public_key(&d, n, &s_pub);
+            let got = o.op(format!("c10_onetime_recv {} {} {} {}", sh(&v), ph(&s_pub), ph(&rt), n), true);
+            o.direct(got == ph(&want), "c10: from_key for wallets sharing S (different v), same R, consecutively == Hs(8vR ‖ n)G + S [dalek]", format!("wallet {} v={} S={} R={} n={}", w, sh(&v), ph(&s_pub), ph(&rt), n), got, ph(&want));
+            let mut m = d.compress().to_bytes().to_vec(); m.extend(varint(n));
+            let got = o.op(format!("c10_rvn {} {} {}", sh(&v), ph(&rt), n), true);
+            o.direct(got == sh(&hs(&m)), "c10: get_rvn_scalar for wallets sharing S, same R, consecutively [dalek]", format!("wallet {} v={} R={} n={}", w, sh(&v), ph(&rt), n), got, sh(&hs(&m)));
+            let got = o.op(format!("c10_subcheck {} {} 0 2 0 3 {} {} {}", sh(&v), ph(&s_pub), ph(&rt), n, ph(&key1)), true);
+            let want = if w == 1 { format!("{}/{}", si, sj) } else { "none".to_string() };
+            o.direct(got == want, "c10: SubKeyChecker::check for wallets sharing S (different v), same R and key, consecutively: only the addressed wallet matches", format!("wallet {} v={} S={} R={} n={} key={}", w, sh(&v), ph(&s_pub), ph(&rt), n, ph(&key1)), got, want);
+            // sender side: from_random(V, S, r) with the same S and r, different V
+            let vv = v * G;
+            let got = o.op(format!("c10_onetime {} {} {} {}", sh(&r), ph(&vv), ph(&s_pub), n), true);
+            let want = sender(&r, &(vv, s_pub, false), n).1;
+            o.direct(got == ph(&want), "c10: from_random for destinations sharing S (different V), same r, consecutively [dalek]", format!("wallet {} r={} V={} S={} n={}", w, sh(&r), ph(&vv), ph(&s_pub), n), got, ph(&want));
+            // spend == R (what c10_derive passes): different scalars, same point, consecutively
+            let got = o.op(format!("c10_derive {} {}", sh(&v), ph(&rt)), k % 8 != 0);
+            o.direct(got == ph(&d), "c10: from_key((a,B),B) for different a, same B, consecutively [dalek]", format!("{} {}", sh(&v), ph(&rt)), got, ph(&d));
+        }
+    }
+    // (2) scalars with each top byte 0x00..0x0f (all below 2^252 < l, canonical) on points carrying each of the 8 small-order
+    // components: a scalar-side shortcut valid only below some power of two (8a computed in the scalar field when a < 2^250, …)
+    for round in 0..(if thorough { 4 } else { 1 }) {
+        for top in 0u8..16 {
+            let mut ab = rng.arr32(); ab[31] = top;
+            if round % 2 == 1 { ab[30] = if top % 2 == 0 { 0xff } else { 0x00 }; }
+            let a = Scalar::from_bytes_mod_order(ab);
+            let bp = rand_scalar(rng) * G;
+            let tf = derivation(&a, &bp);
+            o.stat(&format!("c10.scalar-top-byte.{:02x}", top));
+            for (ti, t) in EIGHT_TORSION.iter().enumerate() {
+                let b = bp + t;
+                let got = o.op(format!("c10_derive {} {}", sh(&a), ph(&b)), ti != 0);
+                o.direct(got == ph(&tf), "c10: derivation(a, B'+T) == 8a*B' for scalars of every top byte [dalek]", format!("{} {} T{}", sh(&a), ph(&bp), ti), got, ph(&tf));
+                if (a * Scalar::from(8u8)) * b != tf { o.stat("c10.formulas-differ"); }
+                if ti % 3 == (top as usize) % 3 {
+                    let got = o.op(format!("c10_derive_sender {} {}", sh(&a), ph(&b)), ti != 0);
+                    o.direct(got == ph(&tf), "c10: from_random(V'+T,_,r).rv == 8r*V' for scalars of every top byte [dalek]", format!("{} {} T{}", sh(&a), ph(&bp), ti), got, ph(&tf));
+                }
+            }
+        }
+    }
+    // (4) operations that hash `rv ‖ varint(index)` at LONG indices followed by SHORT ones on the same thread and the same keys
+    // (a scratch buffer reused without truncation keeps a stale trailing byte)
+    for _ in 0..(if thorough { 12 } else { 3 }) {
+        let (v, r) = (rand_scalar(rng), rand_scalar(rng));
+        let s_pub = rand_scalar(rng) * G;
+        let rt = r * G;
+        let d = derivation(&v, &rt);
+        for n in [2097152u64, 16384, 300, 128, 127, 1, 0, u64::MAX, 16383, 5] {
+            o.stat("c10.index-long-then-short");
+            let mut m = d.compress().to_bytes().to_vec(); m.extend(varint(n));
+            let got = o.op(format!("c10_rvn {} {} {}", sh(&v), ph(&rt), n), true);
+            o.direct(got == sh(&hs(&m)), "c10: get_rvn_scalar at descending indices on the same keys [dalek]", format!("v={} R={} n={}", sh(&v), ph(&rt), n), got, sh(&hs(&m)));
+            let want = derive_public_key(&d, n, &s_pub);
+            let got = o.op(format!("c10_onetime_recv {} {} {} {}", sh(&v), ph(&s_pub), ph(&rt), n), true);
+            o.direct(got == ph(&want), "c10: one_time_key at descending indices on the same keys [dalek]", format!("v={} S={} R={} n={}", sh(&v), ph(&s_pub), ph(&rt), n), got, ph(&want));
+            let got = o.op(format!("c10_onetime {} {} {} {}", sh(&r), ph(&(v * G)), ph(&s_pub), n), true);
+            o.direct(got == ph(&want), "c10: sender one_time_key at descending indices on the same keys [dalek]", format!("r={} v={} S={} n={}", sh(&r), sh(&v), ph(&s_pub), n), got, ph(&want));
+        }
+    }
 }
 
 pub fn run_c09(o: &mut Out, tier: &str, seed: u64) {
@@ -260,7 +511,11 @@ pub fn run_c09(o: &mut Out, tier: &str, seed: u64) {
             let n = if pi >= 8 && rng.chance(1, 2) { rng.u64_boundary() } else { *n0 };
             let bi = *rng.pick(&[0xffu32, 0x100, 0xffff, 0x10000, u32::MAX]);
             let bj = *rng.pick(&[0xffu32, 0x100, 0xffff, 0x10000, u32::MAX]);
-            let indices = [(0u32, 0u32), (0, rng.range(1, 5) as u32), (rng.range(1, 5) as u32, 0), (rng.range(1, 50) as u32, rng.range(1, 50) as u32), (bi, bj)];
+            // 6th family (G06): exactly one zero component next to a byte-boundary value, alternating sides — (0, big) / (big, 0).
+            // With 6 indices per position the "every 5th case" torsion below rotates through all index families
+            // (with 5 it always fell on the last one).
+            let one_zero = if pi % 2 == 0 { (0u32, bj) } else { (bi, 0u32) };
+            let indices = [(0u32, 0u32), (0, rng.range(1, 5) as u32), (rng.range(1, 5) as u32, 0), (rng.range(1, 50) as u32, rng.range(1, 50) as u32), (bi, bj), one_zero];
             for (i, j) in indices {
                 count += 1;
                 let r = rand_scalar(&mut rng);
@@ -276,9 +531,10 @@ pub fn run_c09(o: &mut Out, tier: &str, seed: u64) {
                 let mut m = derivation(&v, &tx).compress().to_bytes().to_vec(); m.extend(varint(n));
                 let want = hs(&m) + if i == 0 && j == 0 { s } else { s + sub_scalar(&v, i, j) };
                 o.direct(x == sh(&want), "c09: recover == Hs(8vR ‖ n) + s' [dalek]", input, x, sh(&want));
-                if count % 5 == 0 {
+                if count % 5 == 0 || rng.chance(1, 12) {
                     let rt = tx + EIGHT_TORSION[rng.range(1, 7) as usize];
                     o.stat("c09.txkey-with-torsion");
+                    o.stat(if i == 0 && j == 0 { "c09.txkey-with-torsion.index.zero" } else if i == 0 || j == 0 { "c09.txkey-with-torsion.index.one-zero-component" } else { "c09.txkey-with-torsion.index.other" });
                     let input = format!("{} {} {} {} {} {}", sh(&v), sh(&s), ph(&rt), n, i, j);
                     let x = o.op(format!("c09_recover {}", input), true);
                     let want = derive_public_key(&derivation(&v, &rt), n, &d.1);
@@ -286,6 +542,108 @@ pub fn run_c09(o: &mut Out, tier: &str, seed: u64) {
                     o.direct(xg == Some(want), "c09: recover*G == Hs(8vR ‖ n)G + S' on a transaction key with torsion", input, xg.map(|q| ph(&q)).unwrap_or(x), ph(&want));
                 }
             }
+        }
+        // (G06) ONE KeyRecoverer object, several `recover` calls in order: (0,0) and subaddress indices alternate, positions go
+        // from long varints to short ones and back, the first query is repeated at the end — what a memo inside the object or a
+        // reused scratch buffer would get wrong; each result also passes through `PublicKey::from_private_key`
+        for round in 0..2 {
+            let r = rand_scalar(&mut rng);
+            let tx = r * G + EIGHT_TORSION[if round == 1 { rng.below(8) as usize } else { 0 }];
+            let big = *rng.pick(&[0xffu32, 0x100, 0xffff, 0x10000, u32::MAX]);
+            let mut qs: Vec<(u64, u32, u32)> = vec![(2097152, 0, 0), (16384, 0, big), (128, 0, 0), (127, big, 0), (1, 0, 0), (0, 1, 1), (300, 0, 0), (5, 0, 0), (5, 1, 1), (u64::MAX, big, big)];
+            if round == 1 { qs.reverse(); }
+            qs.push(qs[0]);
+            let d = derivation(&v, &tx);
+            let want: Vec<String> = qs.iter().map(|(n, i, j)| {
+                let mut m = d.compress().to_bytes().to_vec(); m.extend(varint(*n));
+                sh(&(hs(&m) + if *i == 0 && *j == 0 { s } else { s + sub_scalar(&v, *i, *j) }))
+            }).collect();
+            let line = format!("c09_recover_seq {} {} {} {}", sh(&v), sh(&s), ph(&tx), qs.iter().map(|(n, i, j)| format!("{} {} {}", n, i, j)).collect::<Vec<_>>().join(" "));
+            o.stat("c09.recover-seq");
+            let got = o.op(line.clone(), true);
+            o.direct(got == want.join(" "), "c09: several recover calls on ONE KeyRecoverer == Hs(8vR ‖ n) + s' each [dalek]", trunc(&line, 400), got, want.join(" "));
+            // the same queries as separate operations, consecutively on this thread (fresh object each)
+            for ((n, i, j), w) in qs.iter().zip(want.iter()).take(if round == 0 { 11 } else { 4 }) {
+                o.stat("c09.index-long-then-short");
+                let input = format!("{} {} {} {} {} {}", sh(&v), sh(&s), ph(&tx), n, i, j);
+                let x = o.op(format!("c09_recover {}", input), true);
+                o.direct(&x == w, "c09: recover at descending positions, consecutively == Hs(8vR ‖ n) + s' [dalek]", input, x, w.clone());
+            }
+        }
+    }
+    c09_transactions(o, &mut rng, if tier == "thorough" { 60 } else { 8 });
+}
+
+/// (G06, item 3 of the coordinator) whole transactions built here (version 1, clear amounts: main key + one additional key per
+/// output), scanned by `Transaction::check_outputs`, every reported output handed to `OwnedTxOut::recover_key`:
+/// honest outputs to the primary address and to subaddresses (also through an additional key with a small-order component),
+/// and outputs whose key is an honest key MOVED by a small-order point T — these must not be reported, and whatever is
+/// reported must be opened by the recovered scalar: x·G == the key that is on the wire. Then a scan that FAILS
+/// (`Err(InvalidCommitment)`, through `c07_scan_pb`) followed on the same thread by scans of other transactions.
+fn c09_transactions(o: &mut Out, rng: &mut Rng, count: usize) {
+    for k in 0..count {
+        let (v, s) = (rand_scalar(rng), rand_scalar(rng));
+        let s_pub = s * G;
+        let r_main = rand_scalar(rng);
+        let nout = 3 + rng.below(4) as usize;
+        let mut keys: Vec<[u8; 32]> = vec![];
+        let mut adds: Vec<EdwardsPoint> = vec![];
+        let mut shifted: Vec<usize> = vec![];
+        let mut honest: Vec<usize> = vec![];
+        let base_pos = if k % 4 == 3 { 126usize } else { 0 };   // honest outputs beyond position 128 for a quarter of the cases
+        for _ in 0..base_pos { keys.push([0x58; 32]); adds.push(G); }
+        for p in 0..nout {
+            let pos = (base_pos + p) as u64;
+            let (i, j) = match rng.below(4) { 0 => (0u32, 0u32), 1 => (0, 1 + rng.below(2) as u32), 2 => (1, 0), _ => (1, 1 + rng.below(2) as u32) };
+            let d = dest_at(&v, &s_pub, i, j);
+            let rp = rand_scalar(rng);
+            // primary destinations use the main key r·G (the additional key at that position is r'·G, unused); subaddress
+            // destinations use the additional key r'·S', for a third of them with a small-order point added to it
+            let use_main = i == 0 && j == 0;
+            let (rr, txk) = if use_main { (r_main, r_main * G) } else { (rp, rp * d.1) };
+            let add_t = if !use_main && rng.chance(1, 3) { EIGHT_TORSION[rng.range(1, 7) as usize] } else { EdwardsPoint::identity() };
+            adds.push(if use_main { rp * G } else { txk + add_t });
+            let _ = rr;
+            let key = derive_public_key(&derivation(&v, &txk), pos, &d.1);
+            // a third of the outputs: the honest key moved by a non-trivial small-order point
+            if rng.chance(1, 3) { keys.push((key + EIGHT_TORSION[rng.range(1, 7) as usize]).compress().to_bytes()); shifted.push(base_pos + p); }
+            else { keys.push(key.compress().to_bytes()); honest.push(base_pos + p); }
+        }
+        let tx = tx_v1(&keys, extra_of(&(r_main * G), &adds));
+        let line = format!("c09_scan_tx {} {} 0 2 0 3 {}", sh(&v), sh(&s), hex(&tx));
+        o.stat("c09.tx");
+        let got = o.op(line.clone(), true);
+        let parts: Vec<&str> = got.split(' ').collect();
+        let mut reported: Vec<usize> = vec![];
+        if parts.len() >= 2 && parts[0] == "ok" {
+            for e in &parts[2..] {
+                let f: Vec<&str> = e.split(':').collect();
+                if f.len() != 3 { continue; }
+                let pos: usize = f[0].parse().unwrap_or(usize::MAX);
+                reported.push(pos);
+                let xg = from_hex_scalar(f[2]).map(|x| (x * G).compress().to_bytes());
+                o.direct(xg.is_some() && xg.as_ref() == keys.get(pos), "c09: recover_key(owned output)*G == the output key that is on the wire (transaction with honest keys and keys moved by a small-order point)",
+                    trunc(&line, 300), xg.map(|b| hex(&b)).unwrap_or(f[2].to_string()), keys.get(pos).map(|k| hex(k)).unwrap_or("no such output".into()));
+                o.stat("c09.tx.recovered");
+            }
+        }
+        o.direct(reported == honest, "c09: the scan reports exactly the honest outputs; an output whose key is P + T (T small order, T != 0) is not owned", trunc(&line, 300), format!("{:?}", reported), format!("{:?} (moved: {:?})", honest, shifted));
+        for _ in &shifted { o.stat("c09.tx.key-moved-by-torsion"); }
+        // a failing scan, then other transactions on the same thread
+        if k % 2 == 0 {
+            let r2 = rand_scalar(rng);
+            let own = derive_public_key(&derivation(&v, &(r2 * G)), 0, &s_pub);
+            let pre = serialize(&prefix_of(2, &[own.compress().to_bytes()], extra_of(&(r2 * G), &[])));
+            o.stat("c09.failing-scan-then-scan");
+            let bad = o.op(format!("c07_scan_pb {} {} 0 1 0 1 {} 6:{}:{}", sh(&v), ph(&s_pub), hex(&pre), hex(&rng.bytes(8)), ph(&G)), true);
+            o.direct(bad.starts_with("err InvalidCommitment"), "c09: an owned RingCT output whose commitment does not open makes the scan fail", trunc(&bad, 100), bad.clone(), "err InvalidCommitment".into());
+            // a transaction with nothing for this wallet, then the transaction above again
+            let foreign: Vec<[u8; 32]> = (0..2).map(|_| (rand_scalar(rng) * G).compress().to_bytes()).collect();
+            let ftx = tx_v1(&foreign, extra_of(&(rand_scalar(rng) * G), &[]));
+            let got2 = o.op(format!("c09_scan_tx {} {} 0 2 0 3 {}", sh(&v), sh(&s), hex(&ftx)), true);
+            o.direct(got2 == "ok 0", "c09: after a failed scan, a transaction with no output for the wallet has no owned output", trunc(&hex(&ftx), 200), got2, "ok 0".into());
+            let again = o.op(line.clone(), true);
+            o.direct(again == got, "c09: the same transaction scanned again after a failed scan gives the same owned outputs and keys", trunc(&line, 300), again, got.clone());
         }
     }
 }
@@ -296,8 +654,17 @@ pub fn run_c09(o: &mut Out, tier: &str, seed: u64) {
 fn run_c09_scenarios(o: &mut Out, rng: &mut Rng, count: usize) {
     use monero::blockdata::transaction::TxOutTarget;
     for k in 0..count {
-        let cross = if k % 7 == 6 { 128 } else { 0 };
-        let line = crate::c07::gen_scenario(rng, cross, None, None, true).replacen("c07_scenario", "c09_scenario", 1);
+        // (G06) positions of the owned outputs: below 128 (most), just beyond 128, beyond 300, beyond 16384 (once per run; thrice
+        // + once beyond 70000 in the thorough tier) — `recover_key` must pass the FULL position on
+        let cross = if k % 7 == 6 { 128 } else if k % 7 == 3 { 300 } else if k == 8 || (count > 100 && (k == 50 || k == 150)) { 16384 } else if count > 100 && k == 100 { 70000 } else { 0 };
+        let mut line = crate::c07::gen_scenario(rng, cross, None, None, true).replacen("c07_scenario", "c09_scenario", 1);
+        // (G06) large subaddress indices through the scanner and `recover_key`: every index of the description (ranges, main key,
+        // destinations) is shifted by the same offset, so the owned outputs sit at minor / major indices around 0xff, 0xffff, 2^31, 2^32
+        if k % 3 == 1 {
+            let (di, dj) = *rng.pick(&[(0u32, 254u32), (255, 0), (0, 65534), (65535, 255), (0, 0x7fff_fffe), (0, u32::MAX - 5), (u32::MAX - 4, 0)]);
+            line = shift_indices(&line, di, dj);
+            o.stat("c09.scenario.shifted-indices");
+        }
         let toks: Vec<&str> = line.split(' ').collect();
         let s = match crate::c07::scenario(&toks[1..]) { Some(s) => s, None => continue };
         let got = o.op(line.clone(), true);
@@ -312,9 +679,30 @@ fn run_c09_scenarios(o: &mut Out, rng: &mut Rng, count: usize) {
                 o.direct(xg.is_some() && xg == key, "c09: recover_key(owned output)*G == that output's one-time public key (scanned transaction)",
                     trunc(&line, 400), xg.map(|b| hex(&b)).unwrap_or(x.to_string()), key.map(|k| hex(&k)).unwrap_or("no such output".into()));
                 o.stat("c09.scenario.recovered");
+                o.stat(if pos < 128 { "c09.scenario.recovered.pos<128" } else if pos < 16384 { "c09.scenario.recovered.pos<16384" } else { "c09.scenario.recovered.pos>=16384" });
             }
         }
     }
+}
+
+/// shift every subaddress index of a scenario description (tokens: op seed majLo majHi minLo minHi ver rct main extra T fill out…;
+/// `main` = `g[+k]` | `s<i>/<j>[+k]`, destinations `S<i>/<j>.…`) by (di, dj); `P`, `F`, `X`, `g.<n>` are left alone
+fn shift_indices(line: &str, di: u32, dj: u32) -> String {
+    let sh = |ij: &str| -> Option<String> { let (i, j) = ij.split_once('/')?; Some(format!("{}/{}", i.parse::<u32>().ok()?.checked_add(di)?, j.parse::<u32>().ok()?.checked_add(dj)?)) };
+    let t: Vec<&str> = line.split(' ').collect();
+    if t.len() < 12 { return line.to_string(); }
+    let mut out: Vec<String> = t.iter().map(|x| x.to_string()).collect();
+    for (q, d) in [(2usize, di), (3, di), (4, dj), (5, dj)] { match t[q].parse::<u32>().ok().and_then(|x| x.checked_add(d)) { Some(x) => out[q] = x.to_string(), None => return line.to_string() } }
+    if let Some(rest) = t[8].strip_prefix('s') {
+        let (ij, k) = match rest.split_once('+') { Some((a, b)) => (a, format!("+{}", b)), None => (rest, String::new()) };
+        match sh(ij) { Some(x) => out[8] = format!("s{}{}", x, k), None => return line.to_string() }
+    }
+    for q in 12..t.len() {
+        if let Some(rest) = t[q].strip_prefix('S') {
+            if let Some((ij, tail)) = rest.split_once('.') { match sh(ij) { Some(x) => out[q] = format!("S{}.{}", x, tail), None => return line.to_string() } }
+        }
+    }
+    out.join(" ")
 }
 
 pub fn run_c11(o: &mut Out, tier: &str, seed: u64) {
@@ -341,16 +729,34 @@ pub fn run_c11(o: &mut Out, tier: &str, seed: u64) {
             let got = o.op(line, true);
             let want = hex(address_text(42, &d.1, &d.0).as_bytes());
             o.direct(got == want, "c11: address text [dalek keys], consecutive wallets sharing a key", format!("v={} s={} i={} j={}", sh(&v), sh(&s), i, j), got, want);
+            // (G06) the secret side too: a memo keyed on (view, index) or (spend, index) inside the secret-key functions
+            let secs = o.op(format!("c11_sub_sec {} {} {} {}", sh(&v), sh(&s), i, j), true);
+            let sp = s + sub_scalar(&v, i, j);
+            let want = format!("{} {}", sh(&(v * sp)), sh(&sp));
+            o.direct(secs == want, "c11: (v', s') == (v*s', s + m) [dalek], consecutive wallets sharing a key", format!("v={} s={} i={} j={}", sh(&v), sh(&s), i, j), secs, want);
+            let m = o.op(format!("c11_scalar {} {} {}", sh(&v), i, j), true);
+            o.direct(m == sh(&sub_scalar(&v, i, j)), "c11: get_secret_scalar == Hs(\"SubAddr\\0\"‖v‖i‖j) [dalek], consecutive wallets sharing a key", format!("v={} i={} j={}", sh(&v), i, j), m, sh(&sub_scalar(&v, i, j)));
         }
     }
+    c11_vectors(o);
     for w in 0..wallets {
         let (v, _) = strat_scalar(&mut rng, if w < 5 { w } else { 15 });
         let (s, _) = strat_scalar(&mut rng, if (5..10).contains(&w) { w - 5 } else { 15 });
         let s_pub = s * G;
+        // (G06) per wallet: all derived keys / texts of distinct indices must be pairwise distinct (clause e)
+        let mut seen_idx: std::collections::HashSet<(u32, u32)> = Default::default();
+        let mut seen_spend: std::collections::HashSet<String> = Default::default();
+        let mut seen_view: std::collections::HashSet<String> = Default::default();
+        let mut seen_sec: std::collections::HashSet<String> = Default::default();
+        let mut seen_text: std::collections::HashSet<String> = Default::default();
+        // (G06) beyond the 7x7 grid: third / fourth byte boundaries, the sign-bit boundary, an index with four different bytes
+        let extra_idx: [(u32, u32); 5] = [(0xff_ffff, 0x100_0000), (0x7fff_ffff, 0x8000_0000), (0x0102_0304, 0x0506_0708), (0, 0x8000_0000), (0x100_0000, 0)];
+        let grid: Vec<(usize, usize, u32, u32)> = strata.iter().enumerate().flat_map(|(a, i0)| strata.iter().enumerate().map(move |(b, j0)| (a, b, *i0, *j0)))
+            .chain(extra_idx.iter().enumerate().map(|(q, (i, j))| (q, 7 + q, *i, *j))).collect();
         // thorough: beyond the first 20 wallets, random indices replace part of the grid
-        for (a, i0) in strata.iter().enumerate() {
-            for (b, j0) in strata.iter().enumerate() {
-                let (i, j) = if w >= 20 && (a + b) % 3 == 2 { (rng.u64_boundary() as u32, rng.u64_boundary() as u32) } else { (*i0, *j0) };
+        {
+            for (a, b, i0, j0) in grid {
+                let (i, j) = if w >= 20 && b < 7 && (a + b) % 3 == 2 { (rng.u64_boundary() as u32, rng.u64_boundary() as u32) } else { (i0, j0) };
                 o.stat(if i == 0 && j == 0 { "c11.index.zero" } else if i == 0 || j == 0 { "c11.index.one-zero-component" } else { "c11.index.other" });
                 let nt = i != 0 || j != 0;
                 let pubs = o.op(format!("c11_sub_pub {} {} {} {}", sh(&v), ph(&s_pub), i, j), nt);
@@ -367,6 +773,23 @@ pub fn run_c11(o: &mut Out, tier: &str, seed: u64) {
                     if i == 0 && j == 0 {
                         o.direct(secs == format!("{} {}", sh(&v), sh(&s)), "c11: (0,0) secret keys are the primary keys", input.clone(), secs.clone(), format!("{} {}", sh(&v), sh(&s)));
                     }
+                    // (G06) `get_secret_scalar` itself (it is public API and only feeds the other functions), on half of the grid;
+                    // `get_secret_keys` next to the single-key functions as separate fields, on a sixth
+                    if (a + b) % 2 == 0 {
+                        let m = o.op(format!("c11_scalar {} {} {}", sh(&v), i, j), true);
+                        let want = sub_scalar(&v, i, j);
+                        o.direct(m == sh(&want), "c11: get_secret_scalar == Hs(\"SubAddr\\0\"‖v‖i‖j) [dalek]", input.clone(), m.clone(), sh(&want));
+                        if nt { o.direct(from_hex_scalar(&m).zip(from_hex_scalar(ss[1])).map(|(m, sp)| sp - m) == Some(s), "c11: spend secret - get_secret_scalar == s", input.clone(), m, sh(&s)); }
+                    }
+                    if (a + 2 * b) % 6 == 0 {
+                        let k4 = o.op(format!("c11_sub_keys {} {} {} {}", sh(&v), sh(&s), i, j), nt);
+                        o.direct(k4 == format!("{} {}", secs, secs), "c11: get_secret_keys == (get_view_secret_key, get_spend_secret_key), in this order", input.clone(), k4, format!("{} {}", secs, secs));
+                    }
+                    let new_idx = seen_idx.insert((i, j));
+                    if new_idx {
+                        let fresh = [seen_spend.insert(pp[1].to_string()), seen_sec.insert(ss[1].to_string()), v == Scalar::ZERO || seen_view.insert(pp[0].to_string())];
+                        o.direct(fresh.iter().all(|x| *x), "c11: distinct indices of one wallet give distinct spend keys, spend secrets and (v != 0) view keys", input.clone(), format!("{:?}", fresh), "all new".into());
+                    }
                     // every (wallet, index) is formatted on all 3 networks + None and checked in Rust; ONE of the four (rotating, so
                     // that every (index, network) pair occurs for a quarter of the wallets) also goes through the Lean driver
                     let through_lean = (w as usize + a * 7 + b) % 4;
@@ -376,12 +799,69 @@ pub fn run_c11(o: &mut Out, tier: &str, seed: u64) {
                         // the letter of C11: the subaddress-typed text of the two keys, at every index ((0,0): the primary keys;
                         // Monero's wallet prints the Standard-typed address there — recorded as an observation, not checked)
                         let want = hex(address_text(*tag, &d.1, &d.0).as_bytes());
-                        o.direct(got == want, "c11: address text == base58(subaddress tag ‖ S' ‖ V' ‖ checksum) [dalek keys]", format!("{} net={}", input, name), got, want);
+                        o.direct(got == want, "c11: address text == base58(subaddress tag ‖ S' ‖ V' ‖ checksum) [dalek keys]", format!("{} net={}", input, name), got.clone(), want);
+                        if new_idx && *name != "None" && !seen_text.insert(got.clone()) && got != "err" {
+                            o.direct(false, "c11: distinct (index, network) of one wallet give distinct address texts", format!("{} net={}", input, name), got, "a text not seen before".into());
+                        }
                     }
                 } else {
                     o.direct(false, "c11: key derivation returned an error", input, format!("{} / {}", pubs, secs), "two keys".into());
                 }
             }
         }
+        // (G06) a spend key that is NOT s*G of a known s: with each of the 8 small-order components (a view-only wallet may hold any
+        // point), the identity, and the key for which S' is the identity (S = -m*G) — public side and address only
+        let (fi, fj) = *rng.pick(&[(0u32, 1u32), (1, 0), (3, 7), (0xffff, 0x10000)]);
+        let m = sub_scalar(&v, fi, fj);
+        let mut foreign: Vec<(EdwardsPoint, String)> = EIGHT_TORSION.iter().enumerate().skip(1).map(|(ti, t)| (s_pub + t, format!("sG+T{}", ti))).collect();
+        foreign.push((EdwardsPoint::identity(), "identity".into()));
+        foreign.push((-(m * G), "-mG (S' = identity)".into()));
+        foreign.push((EIGHT_TORSION[1] - m * G, "T1-mG (S' = T1)".into()));
+        for (q, (sp, what)) in foreign.iter().enumerate() {
+            for (i, j) in [(fi, fj), (0, 0)] {
+                if (i, j) == (0, 0) && q % 4 != 0 { continue; }
+                o.stat(&format!("c11.foreign-spend:{}", if what.starts_with("sG+T") { "sG+T" } else { what }));
+                let d = dest_at(&v, sp, i, j);
+                let pubs = o.op(format!("c11_sub_pub {} {} {} {}", sh(&v), ph(sp), i, j), true);
+                let want = format!("{} {}", ph(&d.0), ph(&d.1));
+                o.direct(pubs == want, "c11: (V', S') == (v*S', S + m*G) [dalek] for a spend key outside {s*G}: small-order component / identity / S' = identity", format!("v={} S={} ({}) i={} j={}", sh(&v), ph(sp), what, i, j), pubs, want);
+                let (name, tag) = nets[(w as usize + q) % 4];
+                let got = o.op(format!("c11_sub_addr {} {} {} {} {}", sh(&v), ph(sp), i, j, name), true);
+                let want = hex(address_text(tag, &d.1, &d.0).as_bytes());
+                o.direct(got == want, "c11: address text [dalek keys] for a spend key outside {s*G}", format!("v={} S={} ({}) i={} j={} net={}", sh(&v), ph(sp), what, i, j, name), got, want);
+            }
+        }
+        // … and the secret side where the derived spend secret is 0 (s = -m): S' is the identity
+        let s0 = -m;
+        let secs = o.op(format!("c11_sub_sec {} {} {} {}", sh(&v), sh(&s0), fi, fj), true);
+        o.direct(secs == format!("{} {}", sh(&Scalar::ZERO), sh(&Scalar::ZERO)), "c11: s = -m gives the secret keys (0, 0)", format!("v={} s={} i={} j={}", sh(&v), sh(&s0), fi, fj), secs, format!("{} {}", sh(&Scalar::ZERO), sh(&Scalar::ZERO)));
+        let pubs = o.op(format!("c11_sub_pub {} {} {} {}", sh(&v), ph(&(s0 * G)), fi, fj), true);
+        let id = ph(&EdwardsPoint::identity());
+        o.direct(pubs == format!("{} {}", id, id), "c11: s = -m gives the public keys (identity, identity)", format!("v={} s={} i={} j={}", sh(&v), sh(&s0), fi, fj), pubs, format!("{} {}", id, id));
     }
+}
+
+/// (G06) vectors NOT derived from our reading of the code: the crate's own test vectors (src/cryptonote/subaddress.rs tests
+/// `get_subkeys_test`, `get_subaddress_test`: wallet a / b, index (2, 18)). Literal expected values, checked against the library
+/// here and — through check.py — against the Lean model and spec.
+fn c11_vectors(o: &mut Out) {
+    let a = "77916d0cd56ed1920aef6ca56d8a41bac915b68e4c46a589e0956e27a7b77404";
+    let b = from_hex_scalar("8163466f1883598e6dd14027b8da727057165da91485834314f5500a65846f09").unwrap();
+    let bb = ph(&(b * G));
+    o.stat("c11.vector");
+    let got = o.op(format!("c11_sub_pub {} {} 2 18", a, bb), true);
+    let want = "601782bdde614e9ba664048a27b7407df4b76ae2e50a85fcc168a4c1766b3edf c25179ddef2ca4728fb691dd71561dc9f2e7e6b2a14284a4fe5441d7757aea02";
+    o.direct(got == want, "c11: vector (2,18): view / spend public keys", format!("a={} B={}", a, bb), got, want.into());
+    let got = o.op(format!("c11_sub_addr {} {} 2 18 Mainnet", a, bb), true);
+    let want = hex(b"89pMNxzcCo5LAPZDX4qaTeanA6ZiS3VRdUbeKHzbDZkD1Q3YsDDfmXbT2zyjLeHWuuN4vxKne8kNpjH3cMk7nmhwSALCxsd");
+    o.direct(got == want, "c11: vector (2,18): mainnet subaddress text", format!("a={} B={}", a, bb), got, want);
+    let got = o.op(format!("c11_sub_addr {} {} 2 18 None", a, bb), true);
+    let want = hex(b"89pMNxzcCo5LAPZDX4qaTeanA6ZiS3VRdUbeKHzbDZkD1Q3YsDDfmXbT2zyjLeHWuuN4vxKne8kNpjH3cMk7nmhwSALCxsd");
+    o.direct(got == want, "c11: vector (2,18): network None is mainnet", format!("a={} B={}", a, bb), got, want);
+    // the secret side of the same vector must be the secret keys of the literal public keys
+    let secs = o.op(format!("c11_sub_sec {} {} 2 18", a, sh(&b)), true);
+    let ss: Vec<&str> = secs.split(' ').collect();
+    let g = if ss.len() == 2 { format!("{} {}", from_hex_scalar(ss[0]).map(|x| ph(&(x * G))).unwrap_or_default(), from_hex_scalar(ss[1]).map(|x| ph(&(x * G))).unwrap_or_default()) } else { secs.clone() };
+    let want = "601782bdde614e9ba664048a27b7407df4b76ae2e50a85fcc168a4c1766b3edf c25179ddef2ca4728fb691dd71561dc9f2e7e6b2a14284a4fe5441d7757aea02";
+    o.direct(g == want, "c11: vector (2,18): G * secret keys == the literal public keys", format!("a={} b={}", a, sh(&b)), g, want.into());
 }
